@@ -111,6 +111,7 @@ type scenario struct {
 	RunMS    int    `json:"run_ms"` // cut the scenario off after this long (end why="script-end"); 0: run until the applications are done
 	Tag      string `json:"tag"`
 	Flags    M      `json:"flags"`
+	Cookie   bool   `json:"cookie"` // the listener answers every SYN with a SYN cookie (tcp.SynRcvdCountThreshold = 0: process-global, so such scenarios form batches of their own)
 }
 
 // Byte is the content of stream d (0: a->b, 1: b->a) at offset i; TraceTcp.tla has the same function.
@@ -1334,6 +1335,11 @@ func main() {
 	par := 32
 	if len(os.Args) > 4 {
 		par = atoi(os.Args[4])
+	}
+	for i := range scs {
+		if scs[i].Cookie {
+			tcp.SynRcvdCountThreshold = 0 // as under a SYN flood: no half-open endpoint, the connection is created from the cookie
+		}
 	}
 	res := make([][]M, len(scs))
 	sem := make(chan struct{}, par)
